@@ -613,9 +613,18 @@ func (r *run) attest(act, chain string, k int, extra map[string]any) string {
 	}
 	errs := []string{}
 	var pan any
+	// the attestation pass's error is read from the keeper on a discarded branch, not from a log line
+	func() {
+		defer func() { _ = recover() }()
+		probe, _ := r.ctx.CacheContext()
+		_ = r.w.e.Consensus.CheckAndProcessEstimatedMessages(probe)
+		if err := r.w.e.Consensus.CheckAndProcessAttestedMessages(probe); err != nil {
+			errs = append(errs, err.Error())
+		}
+	}()
 	func() {
 		defer func() { pan = recover() }()
-		must(r.w.cmod.EndBlock(r.ctx.WithLogger(capLogger{&errs})))
+		must(r.w.cmod.EndBlock(r.ctx))
 	}()
 	if pan != nil {
 		extra["err"] = fmt.Sprintf("panic: %v", pan)
